@@ -20,15 +20,6 @@ Fixpoint wf (x : obj) : bool :=
   | _ => true
   end.
 
-(* tame: every ratio has a numerator below 2^62 in magnitude.  Needed for symmetry: a bignum outside
-   int64 and a ratio are compared through DIFFERENT roundings depending on the argument order. *)
-Fixpoint tame (x : obj) : bool :=
-  match x with
-  | Rat n d => Z.abs n <? 2 ^ 62
-  | Lst xs | Vec xs => forallb tame xs
-  | Tl v => tame v
-  | _ => true
-  end.
 (* exact: no float anywhere.  Needed for transitivity: comparison with a float rounds the other side. *)
 Fixpoint nofloat (x : obj) : bool :=
   match x with
@@ -47,22 +38,32 @@ Fixpoint alpha (x : obj) : bool :=
   | Tl v => alpha v
   | _ => true
   end.
-Definition sym_guard (x : obj) : bool := wf x && tame x.
-Definition trans_guard (x : obj) : bool := wf x && tame x && nofloat x.
+(* symmetry needs nothing beyond well-formedness since repair C16-11 (before it: ratio numerators below 2^62,
+   because a bignum outside int64 and a ratio were compared through different roundings in the two orders) *)
+Definition sym_guard (x : obj) : bool := wf x.
+Definition trans_guard (x : obj) : bool := wf x && nofloat x.
 
-(* domain of the sxhash theorem: no floats or ratios (their text is strconv's), ASCII text of the classes
-   written without escapes *)
-Definition ascii_plain (c : N) : bool := ((c <? 128) && cp_plain c)%N.
-Fixpoint hash_dom (x : obj) : bool :=
+(* domain of the sxhash theorem (sxhash hashes a canonical form since repairs C16-9 / C16-10).  Text needs no
+   restriction any more.  Numbers, in two tiers selected by fl:
+   fl = false: no float anywhere; every fixnum, bignum and ratio (positive denominator);
+   fl = true:  floats too, and then every number must be a single-float value in an explicit form: an integer
+               below 2^24 in magnitude, a ratio with a power-of-two denominator and a numerator below 2^24, a float
+               whose significand is below 2^24.  There every comparison `equal` makes is exact.
+   Outside both tiers `equal` relates numbers through roundings and is not transitive (the float findings); a
+   fixnum beyond 2^53 is then equal to a single-float and to a double-float that differ: no code can serve both
+   (C16_sxhash_rounding_refuted). *)
+Definition pow2b (d : Z) : bool := d =? 2 ^ Z.log2 d.
+Fixpoint hash_dom (fl : bool) (x : obj) : bool :=
   match x with
-  | Fix z => int64_ok z
-  | Rat _ _ | Flt _ _ _ => false
-  | Chr c => ascii_plain c
-  | Str s | Sym s => forallb ascii_plain s
-  | Lst xs | Vec xs => forallb hash_dom xs
-  | Tl v => hash_dom v
+  | Fix z | Big z => negb fl || (Z.abs z <? 2 ^ 24)
+  | Rat n d => (0 <? d) && (negb fl || (pow2b d && (Z.abs n <? 2 ^ 24)))
+  | Flt _ m e => fl && (Z.abs m <? 2 ^ 24)
+  | Lst xs | Vec xs => forallb (hash_dom fl) xs
+  | Tl v => hash_dom fl v
   | _ => true
   end.
+Definition hash_dom2 (x y : obj) : bool :=
+  (hash_dom false x && hash_dom false y) || (hash_dom true x && hash_dom true y).
 
 (* one memory cell holds one value: two references of the same Go type with the same data word are the
    same object (symbols compare by spelling and are exempt) *)
@@ -78,12 +79,21 @@ Definition test_fn (t : N) : ref -> ref -> bool :=
 (* ------------------------------------------------------------------------------------------------ *)
 (* 3. The hash table as a finite map under its test: a function of the HISTORY                          *)
 
+(* a key the table accepts: its Go representation is comparable.  An operation on any other key (a list)
+   signals a type-error and leaves the table as it was (repair C16-4; before it the host died). *)
+Definition key_hashable (pool : list ref) (i : nat) : bool :=
+  match key_ok pool i with Some true => true | _ => false end.
+Definition op_key (o : hop) : option nat :=
+  match o with HPut i _ | HGet i | HRem i => Some i | _ => None end.
+Definition op_refused (pool : list ref) (o : hop) : bool :=
+  match op_key o with Some i => negb (key_hashable pool i) | None => false end.
+
 Section TableSpec.
   Variable pool : list ref.
   Variable tst : nat -> nat -> bool.       (* the table's test on pool indices *)
   Let n := List.length pool.
 
-  (* hist: the operations so far, most recent first.  A lookup returns the value last stored under an
+  (* hist: the ACCEPTED operations so far, most recent first.  A lookup returns the value last stored under an
      equivalent key, unless an equivalent key was removed or the table cleared since. *)
   Fixpoint s_lookup (hist : list hop) (k : nat) : option Z :=
     match hist with
@@ -104,6 +114,7 @@ Section TableSpec.
     flat_map (fun i => if is_rep i then match s_lookup hist i with Some v => [(i, v)] | None => [] end else [])
              (seq 0 n).
   Definition s_obs (hist : list hop) (o : hop) : hobs :=
+    if op_refused pool o then OTypeErr else
     match o with
     | HPut _ v => OVal v
     | HGet i => OGet (s_lookup hist i)
@@ -112,8 +123,10 @@ Section TableSpec.
     | HCount => ONum (Z.of_nat (s_count hist))
     | HMap => OEntries (s_entries hist)
     end.
+  (* a refused operation does not enter the history *)
+  Definition s_next (hist : list hop) (o : hop) : list hop := if op_refused pool o then hist else o :: hist.
   Fixpoint s_run (hist : list hop) (ops : list hop) : list hobs :=
-    match ops with [] => [] | o :: ops' => s_obs hist o :: s_run (o :: hist) ops' end.
+    match ops with [] => [] | o :: ops' => s_obs hist o :: s_run (s_next hist o) ops' end.
 End TableSpec.
 
 (* observations agree; the entries of maphash as a set *)
@@ -123,28 +136,41 @@ Definition obs_equiv (a b : hobs) : Prop :=
   | _, _ => a = b
   end.
 
-(* the guard of the refinement: every key of the pool is hashable, the test agrees with Go's == on the
-   key representations, and the test is an equivalence on the pool *)
+(* the guard of the refinement: on the hashable keys of the pool the test agrees with Go's == on the key
+   representations, no hashable key is related to an unhashable one, and the test is an equivalence on the
+   pool.  (Before repair C16-4 the guard also demanded that every key be hashable.) *)
 Definition op_in_range (np : nat) (o : hop) : bool :=
   match o with HPut i _ | HGet i | HRem i => Nat.ltb i np | _ => true end.
 Section PoolGuard.
   Variable pool : list ref.
   Variable tst : nat -> nat -> bool.
   Let idx := seq 0 (List.length pool).
-  Definition pool_hashable : bool :=
-    forallb (fun i => match key_ok pool i with Some true => true | _ => false end) idx.
+  Let hk := key_hashable pool.
   Definition pool_coherent : bool :=
-    forallb (fun i => forallb (fun j => Bool.eqb (same_key pool i j) (tst i j)) idx) idx.
+    forallb (fun i => forallb (fun j =>
+      if hk i && hk j then Bool.eqb (same_key pool i j) (tst i j)
+      else negb (hk i || hk j) || negb (tst i j)) idx) idx.
   Definition pool_equiv : bool :=
     forallb (fun i => tst i i) idx &&
     forallb (fun i => forallb (fun j => Bool.eqb (tst i j) (tst j i)) idx) idx &&
     forallb (fun i => forallb (fun j => forallb (fun k => implb (tst i j && tst j k) (tst i k)) idx) idx) idx.
-  Definition pool_ok : bool := pool_hashable && pool_coherent && pool_equiv.
+  Definition pool_ok : bool := pool_coherent && pool_equiv.
 End PoolGuard.
-(* keys on which the unchanged implementation is coherent under eql: nil, t, fixnums, characters, strings,
-   symbols (compared by value / spelling by eql and by Go's ==) and vectors (by identity by both) *)
+(* keys on which the implementation is coherent under eql: nil, t, characters, strings, symbols (compared by
+   value / spelling by eql and by Go's ==), vectors (by identity by both), lists (refused with a type-error; eql
+   relates a list to nothing but itself) and the exact numbers in the representation the reader gives them:
+   fixnums (int64), bignums outside int64 and ratios in lowest terms with a denominator above 1 (found by value
+   since repair C16-5).  Excluded: floats, and the non-canonical representations (a bignum inside int64, a
+   ratio n/1) that eql identifies with a fixnum while the table keeps them apart - finding
+   C16-hash-eql-numbers-are-different-keys. *)
 Definition simple_key (x : obj) : bool :=
-  match x with Nil | Tru | Fix _ | Chr _ | Str _ | Sym _ | Vec _ => true | _ => false end.
+  match x with
+  | Nil | Tru | Chr _ | Str _ | Sym _ | Vec _ | Lst _ => true
+  | Fix z => int64_ok z
+  | Big z => negb (int64_ok z)
+  | Rat n d => (0 <? d) && (Z.gcd n d =? 1) && negb (d =? 1)
+  | _ => false
+  end.
 Definition simple_pool (pool : list ref) : bool := forallb (fun r => simple_key (r_obj r)) pool.
 (* nil and t are each one interface value: all their references carry the same data word *)
 Definition const_words (a b : ref) : Prop :=
